@@ -51,8 +51,9 @@ class MGrid:
 
     def make_var(self, name, axes, positions, pit):
         """metric variable for `axes` located at positions {axis: pos}; values = distinct primes
-        drawn from the iterator pit"""
-        dims = tuple(self.dim(ax, positions[ax]) for ax in axes)
+        drawn from the iterator pit.  positions may name more axes than `axes`: the variable then
+        also varies along those (e.g. a 2-D dx(y, x) registered for ('X',))."""
+        dims = tuple(self.dim(ax, positions[ax]) for ax in positions)
         shape = tuple(self.size(d) for d in dims)
         vals = np.array([float(next(pit)) for _ in range(int(np.prod(shape)))]).reshape(shape)
         return MVar(name, axes, dims, vals)
